@@ -36,7 +36,7 @@ func main() {
 	list := flag.Bool("list", false, "list loops")
 	k := flag.Int("k", -1, "loop index to mutate")
 	limit := flag.Int("limit", 2, "iterations before the loop leaves")
-	mode := flag.String("mode", "break", "break: the loop leaves after -limit iterations; skip: the loop skips iteration number -limit+1; lit: integer literal number k is incremented; errnil: the k-th `return …, err` returns nil instead; cmp: the k-th strict/non-strict ordered comparison is toggled (< <-> <=, > <-> >=); del: the k-th assignment / call statement is dropped (++ becomes --); neg: the k-th if condition is negated; andor: && <-> ||; eq: == <-> !=; arith: + <-> -; ctl: break <-> continue")
+	mode := flag.String("mode", "break", "break: the loop leaves after -limit iterations; skip: the loop skips iteration number -limit+1; lit: integer literal number k is incremented; errnil: the k-th `return …, err` returns nil instead; cmp: the k-th strict/non-strict ordered comparison is toggled (< <-> <=, > <-> >=); del: the k-th assignment / call statement is dropped (++ becomes --); neg: the k-th if condition is negated; andor: && <-> ||; eq: == <-> !=; arith: + <-> -; ctl: break <-> continue; ifdel: the body of the k-th else-less if never runs")
 	dst := flag.String("dst", "", "output directory")
 	flag.Parse()
 
@@ -52,7 +52,7 @@ func main() {
 		node ast.Node
 	}
 	var lits, errRets, cmps []site
-	var dels, negs, andors, eqs, ariths, ctls []site
+	var dels, negs, andors, eqs, ariths, ctls, ifdels []site
 	for _, fname := range files {
 		if strings.HasSuffix(fname, "_test.go") {
 			continue
@@ -105,6 +105,9 @@ func main() {
 					}
 				case *ast.IfStmt:
 					negs = append(negs, site{fname, fd.Name.Name, fset.Position(x.Pos()), f, x})
+					if x.Else == nil && x.Init == nil {
+						ifdels = append(ifdels, site{fname, fd.Name.Name, fset.Position(x.Pos()), f, x})
+					}
 				case *ast.AssignStmt:
 					if x.Tok != token.DEFINE {
 						dels = append(dels, site{fname, fd.Name.Name, fset.Position(x.Pos()), f, x})
@@ -126,7 +129,7 @@ func main() {
 			})
 		}
 	}
-	if m, ok := map[string][]site{"lit": lits, "errnil": errRets, "cmp": cmps, "del": dels, "neg": negs, "andor": andors, "eq": eqs, "arith": ariths, "ctl": ctls}[*mode]; ok {
+	if m, ok := map[string][]site{"lit": lits, "errnil": errRets, "cmp": cmps, "del": dels, "neg": negs, "andor": andors, "eq": eqs, "arith": ariths, "ctl": ctls, "ifdel": ifdels}[*mode]; ok {
 		sites := m
 		if *list {
 			for i, st := range sites {
@@ -158,7 +161,12 @@ func main() {
 			// break <-> continue (a dropped break in a switch case would change nothing; the swap changes the loop)
 			x.Tok = map[token.Token]token.Token{token.BREAK: token.CONTINUE, token.CONTINUE: token.BREAK}[x.Tok]
 		case *ast.IfStmt:
-			x.Cond = &ast.UnaryExpr{Op: token.NOT, X: &ast.ParenExpr{X: x.Cond}}
+			if *mode == "ifdel" {
+				// the guarded statement is dropped: `if c { … }` becomes `if c && false { … }` (the condition is still evaluated)
+				x.Cond = &ast.BinaryExpr{X: &ast.ParenExpr{X: x.Cond}, Op: token.LAND, Y: ast.NewIdent("false")}
+			} else {
+				x.Cond = &ast.UnaryExpr{Op: token.NOT, X: &ast.ParenExpr{X: x.Cond}}
+			}
 		case *ast.AssignStmt:
 			// the statement is deleted: `a = b` becomes `_ = b` (operands stay used, the build keeps working), `a op= b` likewise
 			for i := range x.Lhs {
